@@ -3,6 +3,7 @@ package checks
 import (
 	"fmt"
 	"hash/crc32"
+	"sort"
 	"strings"
 	"sync"
 	"sync/atomic"
@@ -11,13 +12,14 @@ import (
 	"github.com/ProtonMail/gluon/verifhooks/fp"
 
 	"verifharness/ev"
+	"verifharness/imapc"
 	"verifharness/srv"
 )
 
 func init() { register("C01", "exploration", runC01) }
 
 func runC01(r *ev.Run) {
-	r.SetRule("2-6 sessions of one user on 1-2 shared mailboxes plus connector updates; every untagged EXISTS/EXPUNGE/FETCH of every command feeds a client-side mirror; at PRNG-chosen points between two commands a session is probed with UID FETCH 1:* (UID FLAGS) and the rows must agree with what the mirror already knows (count, dense sequence numbers, ascending UIDs, learned UIDs and flag sets). Sequential mode: one global PRNG schedule; concurrent mode: one goroutine per session plus a connector goroutine, with failpoint delays between commit and update broadcast. distinct = distinct command-kind bigrams per session plus distinct cross-session interleaving signatures")
+	r.SetRule("2-6 sessions of one user on 1-2 shared mailboxes plus connector updates; every untagged EXISTS/EXPUNGE/FETCH of every command feeds a client-side mirror; at PRNG-chosen points between two commands a session is probed with UID FETCH 1:* (UID FLAGS) and the rows must agree with what the mirror already knows (count, dense sequence numbers, ascending UIDs, learned UIDs and flag sets). Sequential mode: one global PRNG schedule; concurrent mode: one goroutine per session plus a connector goroutine, with failpoint delays between commit and update broadcast. Plus a table of all 3-step windows over {flag change on message 1-4, removal of message 1-4, arrival} performed by another session between two commands of an observer and delivered in one flush (NOOP, IDLE, CHECK, FETCH then NOOP). distinct = distinct command-kind bigrams per session, distinct cross-session interleaving signatures and distinct (window, flush) pairs")
 	r.Assume("after its own STORE ... .SILENT the flag sets of the targeted messages count as unknown until the next FETCH (the property is about what is learned from untagged responses)",
 		"sequential histories wait for the quiescence barrier after every command; concurrent histories cannot exclude the listed late-arrival renumbering, so there only counts, density, UID order and range rules are judged and position/flag disagreements are counted",
 		"a probe is a FETCH and can therefore never cause an EXPUNGE; what the probe's own flush announces is applied after the comparison")
@@ -43,6 +45,8 @@ func runC01(r *ev.Run) {
 
 		c01Concurrent(r, label, r.Pick(40, 60))
 	}
+
+	c01Window(r)
 
 	r.Set("failpoint_hits", fp.AllHits())
 }
@@ -244,4 +248,139 @@ func c01Concurrent(r *ev.Run, label string, stepsPer int) {
 	if !w.isFailed() && r.WantSample() && len(order) > 20 {
 		r.Sample(map[string]any{"case": label, "mode": "concurrent", "sessions": nSess, "completion_order_prefix": order[:20]})
 	}
+}
+
+// c01Window: several changes by another session pile up for an observer between two of its commands and are
+// delivered in one flush: a flag change on message i, the removal of message j, a flag change on what is then
+// message k, an arrival ... in every order. What the observer is told must replay, in the order it is told, into
+// exactly the view the server then reports to it.
+func c01Window(r *ev.Run) {
+	type op struct {
+		kind string // F (flag change), X (expunge), A (append)
+		pos  int
+	}
+
+	var alphabet []op
+	for i := 1; i <= 4; i++ {
+		alphabet = append(alphabet, op{"F", i}, op{"X", i})
+	}
+
+	alphabet = append(alphabet, op{"A", 0})
+
+	var seqs [][]op
+
+	for _, a := range alphabet {
+		for _, b := range alphabet {
+			for _, c := range alphabet {
+				seqs = append(seqs, []op{a, b, c})
+			}
+		}
+	}
+
+	// flag change / removal / flag change comes first (always part of the quick tier), the rest in PRNG order
+	rng := r.Rand("c01-window")
+	rng.Shuffle(len(seqs), func(i, j int) { seqs[i], seqs[j] = seqs[j], seqs[i] })
+
+	sort.SliceStable(seqs, func(i, j int) bool {
+		fxf := func(q []op) bool { return q[0].kind == "F" && q[1].kind == "X" && q[2].kind == "F" }
+		return fxf(seqs[i]) && !fxf(seqs[j])
+	})
+
+	n := r.Pick(160, len(seqs))
+	if n > len(seqs) {
+		n = len(seqs)
+	}
+
+	flushes := []string{"NOOP", "IDLE", "CHECK", "FETCH"}
+
+	ev.Parallel(n, 10, func(i int) {
+		seq := seqs[i]
+
+		label := fmt.Sprintf("window-%d", i)
+		if r.OnlyCase != "" && r.OnlyCase != label {
+			return
+		}
+
+		crng := r.Rand(label)
+		flush := flushes[crng.Intn(len(flushes))]
+
+		w, err := newWorld(r, "C01", label, 2, []string{"INBOX"}, func(o *srv.Options) { o.IdleBulk = []time.Duration{0, 30 * time.Millisecond}[crng.Intn(2)] })
+		if err != nil {
+			r.Inconclusive("%s: %v", label, err)
+			return
+		}
+
+		defer w.close()
+
+		obs, act := w.sess[0], w.sess[1]
+
+		for k := 0; k < 4; k++ {
+			w.exec(act, fmt.Sprintf("APPEND INBOX (%s) ", []string{``, `\Seen`, `\Answered`, `\Draft`}[k]), imapc.Lit(simpleMessage(w.marker(), nil)))
+		}
+
+		if !w.selectBox(obs, "INBOX", false) || !w.selectBox(act, "INBOX", false) || !w.probe(obs, false) {
+			return
+		}
+
+		var desc []string
+
+		nFlag := 0
+
+		for _, o := range seq {
+			count := len(act.mir.Entries)
+
+			switch o.kind {
+			case "F":
+				if o.pos > count {
+					continue
+				}
+
+				// every flag change really changes something: a keyword that is new for this step
+				nFlag++
+				w.exec(act, fmt.Sprintf("STORE %d %s (kw%d%s)", o.pos, []string{"+FLAGS", "+FLAGS", "FLAGS"}[crng.Intn(3)], nFlag, []string{"", ` \Flagged`}[crng.Intn(2)]))
+			case "X":
+				if o.pos > count {
+					continue
+				}
+
+				w.exec(act, fmt.Sprintf(`STORE %d +FLAGS.SILENT (\Deleted)`, o.pos))
+				applySilentStore(&act.mir, []int{o.pos - 1}, "", nil)
+				w.exec(act, "EXPUNGE")
+			default:
+				w.exec(act, "APPEND INBOX (\\Flagged) ", imapc.Lit(simpleMessage(w.marker(), nil)))
+			}
+
+			desc = append(desc, fmt.Sprintf("%s%d", o.kind, o.pos))
+		}
+
+		if w.isFailed() || !mustQuiesce(r, w.s, 0, label) {
+			return
+		}
+
+		r.Eval(1)
+		r.Distinct(fmt.Sprintf("window %s flushed by %s", strings.Join(desc, " "), flush))
+
+		switch flush {
+		case "IDLE":
+			ir := obs.c.IdleStart()
+			if ir.Err == nil && ir.Status == "" {
+				time.Sleep(time.Duration(crng.Intn(60)) * time.Millisecond)
+				ir = obs.c.IdleDone(ir)
+			}
+
+			w.absorb(obs, "IDLE", ir)
+		case "FETCH":
+			// a FETCH delivers the flag changes and holds the removals back; the NOOP after it delivers those
+			w.exec(obs, "FETCH 1:* (FLAGS)")
+			w.exec(obs, "NOOP")
+		default:
+			w.exec(obs, flush)
+		}
+
+		if w.isFailed() {
+			return
+		}
+
+		w.probe(obs, false)
+	})
 }
